@@ -205,7 +205,8 @@ def run(ctx):
     for scr, readers, nreads, presize in configs:
         consts = {"Scripts": scr, "Readers": readers, "Probe": "{0, 1, 3}", "NReads": nreads, "PreSize": presize, "PublishFirst": "FALSE"}
         model.mc(IMPL, consts, ctx, "TextFileStorage" + scr[2:], invariants=invs, properties=["Termination"], view=None, deadlock=False,
-                 workers=8, timeout=1500)
+                 workers=8, timeout=1500, coverage=True)
+    model.coverage_summary(ctx)
     neg = {"Scripts": "<-ScriptsB", "Readers": "{11}", "Probe": "{0, 1, 3}", "NReads": 2, "PreSize": 0, "PublishFirst": "TRUE"}
     model.mc(IMPL, neg, ctx, "TextFileStorage_neg", invariants=invs, view=None, workers=8, expect_violation=True)
     # 2. the observer specification can reject (negative control on its closed model)
